@@ -436,6 +436,47 @@ pub fn container(allow_fastq: bool) -> BoxedStrategy<Container> {
         .boxed()
 }
 
+/// records cut from one common "genome" (overlapping reads, either strand, occasional N):
+/// k-mers and minimisers are shared between records
+pub fn records_related(p: RecParams) -> BoxedStrategy<Vec<Rec>> {
+    let n = prop_oneof![1 => 0..=3usize.min(p.max_records), 6 => 0..=p.max_records];
+    (nuc_seq(p.scale, (2 * p.max_len).max(8)), n)
+        .prop_flat_map(move |(genome, n)| {
+            (Just(genome), vec((id_strategy(), any::<u16>(), any::<u16>(), any::<bool>(), prop::bool::weighted(0.15), any::<u16>()), n))
+        })
+        .prop_map(move |(genome, cuts)| {
+            let g = genome.len();
+            uniq_ids(
+                cuts.into_iter()
+                    .map(|(id, a, l, rc, mutate, mp)| {
+                        let start = crate::util::idx16(a, g + 1);
+                        let len = crate::util::idx16(l, (g - start).min(p.max_len) + 1);
+                        let mut s = genome[start..start + len].to_vec();
+                        if rc {
+                            s = model::revcomp_text(&s);
+                        }
+                        if mutate && !s.is_empty() && !p.nuc_only {
+                            let i = crate::util::idx16(mp, s.len());
+                            s[i] = b'N';
+                        }
+                        Rec { id, desc: None, seq: Bytes(s) }
+                    })
+                    .collect(),
+            )
+        })
+        .boxed()
+}
+
+/// independent or related records, plus a container that can hold them
+pub fn records_mixed_in_container(p: RecParams) -> BoxedStrategy<(Vec<Rec>, Container)> {
+    prop_oneof![3 => records(p), 2 => records_related(p)]
+        .prop_flat_map(|recs| {
+            let allow_fastq = !recs.is_empty() && recs.iter().all(|r| !r.seq.0.is_empty());
+            (Just(recs), container(allow_fastq))
+        })
+        .boxed()
+}
+
 /// records plus a container that can hold them
 pub fn records_in_container(p: RecParams) -> BoxedStrategy<(Vec<Rec>, Container)> {
     records(p)
